@@ -24,7 +24,7 @@ RULE = ("directory trees of depth <= 3 built from names {a, b, c, pkg_x, mod_y, 
         "resolution is compared with FileFinder; found paths go through modpath_to_modname, split_modpath and "
         "import_module_from_path.  Non-trivial = the name has at least two parts or names a directory; distinct by "
         "(tree listing, name) hash.  Plus the interpreter's own installation: about 600 standard-library and site-packages "
-        "module names (real extension modules, packages, frozen modules) against importlib.util.find_spec")
+        "module names (real extension modules, packages) against importlib.util.find_spec")
 ASSUMPTIONS = [
     "PEP 420 namespace packages count as 'not found' (xdoctest documents no PEP 420 support); .pyc-only modules are "
     "not generated; extension modules are empty files carrying one of the interpreter's EXTENSION_SUFFIXES (located, "
@@ -245,7 +245,7 @@ def check_tree(ctx, idx, seed):
 
 def check_installation(ctx):
     """the interpreter's own installation as a tree: every standard-library / site-packages module name the import
-    system can locate as a file must resolve to that file (real extension modules, packages, frozen modules' sources)"""
+    system can locate as a file must resolve to that file (real extension modules, packages; frozen modules are left out)"""
     import pkgutil
     import importlib.util
     from xdoctest.utils import util_import
@@ -268,9 +268,7 @@ def check_installation(ctx):
             continue
         org = spec.origin if spec else None
         if org == 'frozen':
-            org = getattr(getattr(spec, 'loader_state', None), 'filename', None)
-            if not org:
-                continue        # a frozen module that does not say where its source lives: nothing to compare with
+            continue            # frozen modules (and their aliases) are not loaded from a file at all
         real = org if org and os.path.exists(org) else None
         ctx.evaluation()
         case = {'corpus': 'installation', 'name': n}
